@@ -181,6 +181,23 @@ def driver_of_loop(L):
     return None
 
 
+def first_iteration_flags(sy, L):
+    """loop-carried bool variables that are a constant b before the loop and the constant !b at the end of every iteration that
+    continues: inside the body, `flag == b` holds exactly in the first iteration. Returns [(loop term, b)]."""
+    out = []
+    for vid, t in L["entry"].env.items():
+        if not (isinstance(t, tuple) and t[:1] == ("loop",) and t[2] == L["index"]):
+            continue
+        pre = L["pre"].env.get(vid)
+        if pre not in (S.TRUE, S.FALSE):
+            continue
+        want = S.FALSE if pre == S.TRUE else S.TRUE
+        conts = [st for st, (k, v) in L["paths"] if k == S.CONT]
+        if conts and all(st.env.get(vid) == want for st in conts):
+            out.append((t, pre == S.TRUE))
+    return out
+
+
 def diff_outcome(impl_o, ref_o):
     if impl_o[0] != ref_o[0]:
         return (impl_o[0] + "-vs-" + ref_o[0], "implementation does `%s`" % render(impl_o), "reference does `%s`" % render(ref_o))
